@@ -156,6 +156,8 @@ package requestmanager
 //@ func RequestManager.processResponses
 //@   lenient
 //@   requires invRM(rm) && distinctIDs(responses)
+//@   -- (decoded messages carry non-nil blocks: message/v2 fromIPLD builds each with NewBlockWithCid)
+//@   requires forall j int :: 0 <= j && j < len(blks) ==> blks[j] != nil
 //@   modifies inProgressRequestStatus.terminalError, rm.inProgressRequestStatuses[*], closedErr, closedProg, alloc
 //@   ensures invRM(rm)
 //@   callsite RequestManager.updateLastResponses: assert forall j int :: 0 <= j && j < len($responses) ==> owned(rm, p, $responses[j].requestID)
